@@ -220,3 +220,21 @@ from jsonargparse.typing import PositiveFloat  # noqa: E402  (the analysed tree 
 class Limits:
     lim: PositiveFloat = 1.0
     n: int = 0
+
+
+@dataclass
+class Sched:
+    lr: float  # required, and named like a parameter of the class that holds it
+    steps: int = 10
+
+
+class BaseOpt:
+    pass
+
+
+class Opt(BaseOpt):
+    """A class whose own `lr` is a link target while its dataclass parameter has a required field of the same name."""
+
+    def __init__(self, lr: float, schedule: Sched, momentum: float = 0.0):
+        self.lr, self.schedule, self.momentum = lr, schedule, momentum
+        LOG.append((type(self).__name__, dict(lr=lr, schedule=schedule, momentum=momentum), self))
